@@ -28,7 +28,7 @@ RULE = ('case = (message class, max PDU length, data length, context id, source 
         'non-trivial = more than one fragment is produced or a data set is present')
 ASSUMPTIONS = ['maximum PDU length bounds the P-DATA-TF variable field (PS3.8 D.1), so 7 carries one payload byte']
 REQUIRED = ['oracle.size-bound', 'oracle.stream-discipline', 'oracle.byte-conservation',
-            'oracle.bytes-vs-file', 'oracle.via-association-send']
+            'oracle.bytes-vs-file', 'oracle.via-association-send', 'oracle.short-read-source']
 
 RANGE = {'quick': (7, 64), 'thorough': (7, 600)}
 SOURCES = ['bytes', 'bytesio', 'file0', 'file-offset']
@@ -81,7 +81,7 @@ def run_shard(spec, tier, seed):
                                    'source': src, 'seed': seed}, tmpdir)
             # all lengths with one class, all four sources (bytes-vs-file equivalence)
             for n in lengths:
-                for src in SOURCES:
+                for src in SOURCES + ['shortreads']:
                     run_case(res, {'cls': 'CStoreRQMessage', 'max': mx, 'len': n, 'ctx': 1,
                                    'source': src, 'seed': seed}, tmpdir)
     finally:
@@ -111,6 +111,10 @@ def make_source(kind, data, tmpdir):
         return data
     if kind == 'bytesio':
         return io.BytesIO(data)
+    if kind == 'shortreads':
+        # a stream whose read(n) may return less than n before the end of the data
+        from .c10 import ShortReads
+        return ShortReads(data, rng(len(data), 'c06-short'))
     path = os.path.join(tmpdir, 'ds-%d.bin' % len(data))
     prefix = b'' if kind == 'file0' else b'\0' * 128 + b'DICM' + b'meta-header-bytes'
     with open(path, 'wb') as f:
@@ -216,7 +220,9 @@ def run_case(res, case, tmpdir):
                               where, tag[0], tag[1], cs.get(tag), want), case)
             break
     # bytes vs file: same stream whatever the source
-    if n and case['source'] != 'bytes':
+    if n and case['source'] == 'shortreads':
+        res.count('oracle.short-read-source')      # fragment boundaries may differ, nothing else
+    elif n and case['source'] != 'bytes':
         res.count('oracle.bytes-vs-file')
         msg2, _ = msgs.make(name, rng(case['seed'], 'c06-msg', name, mx, n), unset_prob=0.3)
         msg2.data_set = data
